@@ -743,3 +743,56 @@ func (t *Topo) Replicas(id string) []*TNode {
 }
 
 var _ = bytes.Equal
+
+// RandomTopo builds nm masters (the first nm nodes) owning a random partition
+// of the slot space into nranges ranges (single-slot ranges included) and r
+// replicas per master. Every master owns at least one range.
+func RandomTopo(cl *Cluster, nm, r, nranges int, rnd func(n int) int) *Topo {
+	if nranges < nm {
+		nranges = nm
+	}
+	cuts := map[int]bool{}
+	for len(cuts) < nranges-1 {
+		cuts[1+rnd(16383)] = true
+	}
+	// a few single-slot ranges: cut right after an existing cut
+	var starts []int
+	starts = append(starts, 0)
+	for c := range cuts {
+		starts = append(starts, c)
+	}
+	sortInts(starts)
+	t := &Topo{}
+	for i := 0; i < nm; i++ {
+		n := cl.Nodes[i]
+		t.Nodes = append(t.Nodes, &TNode{Node: n, ID: n.ID, Addr: n.Addr, Master: true, CPort: i%2 == 0})
+	}
+	for i, s := range starts {
+		e := 16383
+		if i+1 < len(starts) {
+			e = starts[i+1] - 1
+		}
+		m := i % nm
+		if i >= nm {
+			m = rnd(nm)
+		}
+		t.Nodes[m].Slots = append(t.Nodes[m].Slots, [2]int{s, e})
+	}
+	k := nm
+	for i := 0; i < nm; i++ {
+		for j := 0; j < r; j++ {
+			n := cl.Nodes[k]
+			k++
+			t.Nodes = append(t.Nodes, &TNode{Node: n, ID: n.ID, Addr: n.Addr, Master: false, MasterID: cl.Nodes[i].ID, CPort: true})
+		}
+	}
+	return t
+}
+
+func sortInts(a []int) {
+	for i := 1; i < len(a); i++ {
+		for j := i; j > 0 && a[j] < a[j-1]; j-- {
+			a[j], a[j-1] = a[j-1], a[j]
+		}
+	}
+}
